@@ -1,0 +1,271 @@
+//! Verification hooks: module cache (see mod.rs).
+//!
+//! C26: a trace of the cache decisions taken by `compile_to_ast` (whole-program reuse, decided by
+//! `is_parse_module_cache_up_to_date`) and by `TyModule::type_check` (per-module reuse, decided by
+//! `is_ty_module_cache_up_to_date`), together with the part of the module cache and of the LSP
+//! `file_versions` the decision was taken on, and the begin/end of every `compile_to_ast` call.
+//!
+//! The trace is inert unless the environment variable `SWAY_VERIF_CACHE_TRACE` is set. The hook
+//! never changes a decision: it calls the real decision functions a second time (they are pure
+//! functions of the cache, the build configuration and the file system) and records the answer.
+//!
+//! Line formats (paths are printed as given, fields are separated by single spaces):
+//!
+//! ```text
+//! begin root=<path> mod=<path>@<version>|-
+//! end root=<path> mod=<path>@<version>|- res=<ok|tyerr|reused|err> retrigger=<0|1>
+//! parse|ty <path> tests=<0|1> res=<0|1> fv=<path>@<n|version>,… e=<entry>;…
+//! entry := <path>|h=<0|1|x>|pv=<n|version>|tv=<-|n|version>|deps=<path>,…
+//! ```
+//!
+//! [`set_delay_ms`] makes every `compile_to_ast` sleep right after its `begin` line (before the
+//! first cancellation check) for the time set or until [`wake`] is called, so that a harness can
+//! place a newer request inside a running compilation deterministically.
+//!
+//! `h` tells whether the file's present content hashes to the entry's `hash`; `pv` is the parsed
+//! version, `tv` the version of the typed module (`-` when the entry has no typed module).
+//! Only decisions about paths that occur in `file_versions` are recorded; the entries listed are
+//! those reachable from the queried path through `dependencies`.
+
+use crate::{query_engine::ModuleCacheKey, BuildConfig, Engines};
+use std::{
+    collections::BTreeSet,
+    hash::{DefaultHasher, Hash, Hasher},
+    path::PathBuf,
+    sync::{
+        atomic::{AtomicBool, AtomicU64, Ordering},
+        Arc, Mutex, OnceLock,
+    },
+};
+
+fn buffer() -> &'static Mutex<Vec<String>> {
+    static B: OnceLock<Mutex<Vec<String>>> = OnceLock::new();
+    B.get_or_init(|| Mutex::new(Vec::new()))
+}
+
+/// True when `SWAY_VERIF_CACHE_TRACE` is set (read once).
+pub fn enabled() -> bool {
+    static E: OnceLock<bool> = OnceLock::new();
+    *E.get_or_init(|| std::env::var_os("SWAY_VERIF_CACHE_TRACE").is_some())
+}
+
+static DELAY_MS: AtomicU64 = AtomicU64::new(0);
+
+static WAKE: AtomicU64 = AtomicU64::new(0);
+
+/// Sets the (maximal) sleep at the begin of every traced `compile_to_ast` that begins from now on
+/// (0 = none).
+pub fn set_delay_ms(ms: u64) {
+    DELAY_MS.store(ms, Ordering::SeqCst);
+}
+
+/// Ends the sleep of the compilation that is sleeping now.
+pub fn wake() {
+    WAKE.fetch_add(1, Ordering::SeqCst);
+}
+
+fn push(line: String) {
+    buffer()
+        .lock()
+        .unwrap_or_else(|e| e.into_inner())
+        .push(line);
+}
+
+/// Number of trace lines recorded so far and not yet taken.
+pub fn len() -> usize {
+    buffer().lock().unwrap_or_else(|e| e.into_inner()).len()
+}
+
+/// A copy of the trace lines from index `from` on.
+pub fn since(from: usize) -> Vec<String> {
+    let b = buffer().lock().unwrap_or_else(|e| e.into_inner());
+    b.get(from..).map(|s| s.to_vec()).unwrap_or_default()
+}
+
+/// Removes and returns the whole trace.
+pub fn take() -> Vec<String> {
+    std::mem::take(&mut *buffer().lock().unwrap_or_else(|e| e.into_inner()))
+}
+
+fn opt(v: Option<u64>) -> String {
+    v.map_or_else(|| "n".to_string(), |v| v.to_string())
+}
+
+fn modified(build_config: Option<&BuildConfig>) -> String {
+    build_config
+        .and_then(|c| c.lsp_mode.as_ref())
+        .and_then(|lsp| {
+            lsp.file_versions
+                .iter()
+                .find_map(|(p, v)| v.map(|v| format!("{}@{}", p.display(), v)))
+        })
+        .unwrap_or_else(|| "-".to_string())
+}
+
+/// Records `begin` on creation and `end` when dropped, i.e. on every way out of `compile_to_ast`.
+pub struct CompileGuard {
+    root: String,
+    modified: String,
+    retrigger: Option<Arc<AtomicBool>>,
+    outcome: &'static str,
+}
+
+impl CompileGuard {
+    /// `ok`: a new `Programs` is returned, `tyerr`: the same with a failed typed program,
+    /// `reused`: the cached `Programs` is returned; otherwise `err` is reported.
+    pub fn set_outcome(guard: &mut Option<Self>, outcome: &'static str) {
+        if let Some(g) = guard.as_mut() {
+            g.outcome = outcome;
+        }
+    }
+
+    pub fn new(
+        build_config: Option<&BuildConfig>,
+        retrigger: Option<Arc<AtomicBool>>,
+    ) -> Option<Self> {
+        if !enabled() {
+            return None;
+        }
+        let root = build_config
+            .map(|c| c.canonical_root_module().display().to_string())
+            .unwrap_or_else(|| "-".to_string());
+        let modified = modified(build_config);
+        push(format!("begin root={root} mod={modified}"));
+        // sleep for the time set when the compilation began, or until the harness calls `wake`
+        let delay = DELAY_MS.load(Ordering::SeqCst);
+        let generation = WAKE.load(Ordering::SeqCst);
+        let start = std::time::Instant::now();
+        while delay > 0
+            && WAKE.load(Ordering::SeqCst) == generation
+            && start.elapsed() < std::time::Duration::from_millis(delay)
+        {
+            std::thread::sleep(std::time::Duration::from_millis(1));
+        }
+        Some(Self {
+            root,
+            modified,
+            retrigger,
+            outcome: "err",
+        })
+    }
+}
+
+impl Drop for CompileGuard {
+    fn drop(&mut self) {
+        let r = self
+            .retrigger
+            .as_ref()
+            .is_some_and(|b| b.load(Ordering::SeqCst));
+        push(format!(
+            "end root={} mod={} res={} retrigger={}",
+            self.root, self.modified, self.outcome, r as u8
+        ));
+    }
+}
+
+fn snapshot(
+    engines: &Engines,
+    path: &Arc<PathBuf>,
+    include_tests: bool,
+    build_config: Option<&BuildConfig>,
+) -> Option<String> {
+    let fv = &build_config?.lsp_mode.as_ref()?.file_versions;
+    fv.get(path.as_ref())?;
+    let fv_s = fv
+        .iter()
+        .map(|(p, v)| format!("{}@{}", p.display(), opt(*v)))
+        .collect::<Vec<_>>()
+        .join(",");
+    let cache = engines.qe().module_cache.read();
+    let mut seen = BTreeSet::new();
+    let mut todo = vec![path.clone()];
+    let mut entries = vec![];
+    while let Some(p) = todo.pop() {
+        if !seen.insert(p.clone()) {
+            continue;
+        }
+        let key = ModuleCacheKey::new(p.clone(), include_tests);
+        if let Some(e) = cache.get(&key) {
+            let h = match std::fs::read_to_string(p.as_path()) {
+                Ok(src) => {
+                    let mut hasher = DefaultHasher::new();
+                    src.hash(&mut hasher);
+                    if hasher.finish() == e.common.hash {
+                        "1"
+                    } else {
+                        "0"
+                    }
+                }
+                Err(_) => "x",
+            };
+            let tv = e
+                .typed
+                .as_ref()
+                .map_or_else(|| "-".to_string(), |t| opt(t.version));
+            let deps = e
+                .common
+                .dependencies
+                .iter()
+                .map(|d| d.display().to_string())
+                .collect::<Vec<_>>()
+                .join(",");
+            entries.push(format!(
+                "{}|h={}|pv={}|tv={}|deps={}",
+                p.display(),
+                h,
+                opt(e.parsed.version),
+                tv,
+                deps
+            ));
+            for d in e.common.dependencies.iter().rev() {
+                todo.push(d.clone());
+            }
+        }
+    }
+    Some(format!("fv={} e={}", fv_s, entries.join(";")))
+}
+
+/// Records the answer of `is_parse_module_cache_up_to_date` for `path`.
+pub fn parse_decision(
+    engines: &Engines,
+    path: &Arc<PathBuf>,
+    include_tests: bool,
+    build_config: Option<&BuildConfig>,
+) {
+    if !enabled() {
+        return;
+    }
+    if let Some(snap) = snapshot(engines, path, include_tests, build_config) {
+        let res =
+            crate::is_parse_module_cache_up_to_date(engines, path, include_tests, build_config);
+        push(format!(
+            "parse {} tests={} res={} {}",
+            path.display(),
+            include_tests as u8,
+            res as u8,
+            snap
+        ));
+    }
+}
+
+/// Records the answer of `is_ty_module_cache_up_to_date` for `path`.
+pub fn ty_decision(
+    engines: &Engines,
+    path: &Arc<PathBuf>,
+    include_tests: bool,
+    build_config: Option<&BuildConfig>,
+) {
+    if !enabled() {
+        return;
+    }
+    if let Some(snap) = snapshot(engines, path, include_tests, build_config) {
+        let res = crate::is_ty_module_cache_up_to_date(engines, path, include_tests, build_config);
+        push(format!(
+            "ty {} tests={} res={} {}",
+            path.display(),
+            include_tests as u8,
+            res as u8,
+            snap
+        ));
+    }
+}
